@@ -585,6 +585,8 @@ func (c *FCtx) term(v ssa.Value) *Term {
 		return T("make", funcID(c.Fn)+"#"+x.Name())
 	case *ssa.MakeChan:
 		return T("make", funcID(c.Fn)+"#"+x.Name())
+	case *ssa.Select:
+		return T("select", funcID(c.Fn)+"#"+x.Name())
 	case *ssa.Range:
 		return T("rangeit", "", c.Term(x.X))
 	case *ssa.Next:
@@ -1173,7 +1175,17 @@ func (c *FCtx) freezeTerm(t *Term, w map[string]bool, id string) *Term {
 	if len(t.Args) == 0 {
 		return T("pre", id, t)
 	}
-	// results of earlier calls are values: they are not re-evaluated, only direct reads of the live location are frozen
+	if t.Op == "call" {
+		// a pure (re-evaluable) call whose own reads are written by the call: its value now is a snapshot
+		own := map[string]bool{}
+		shallow := &Term{Op: t.Op, Name: t.Name}
+		c.A.termReads(shallow, own)
+		for l := range own {
+			if w[l] {
+				return T("pre", id, t)
+			}
+		}
+	}
 	na := make([]*Term, len(t.Args))
 	for i, a := range t.Args {
 		na[i] = c.freezeTerm(a, w, id)
